@@ -15,6 +15,7 @@ import (
 	sql "github.com/rqlite/rqlite/v10/db"
 	"github.com/rqlite/rqlite/v10/internal/fsutil"
 	"github.com/rqlite/rqlite/v10/internal/random"
+	"github.com/rqlite/rqlite/v10/internal/verifhook"
 	"github.com/rqlite/rqlite/v10/snapshot"
 	rlog "github.com/rqlite/rqlite/v10/store/log"
 )
@@ -198,6 +199,7 @@ func RecoverNode(dataDir string, extensions []string, logger *log.Logger, logs r
 	}
 
 	// Now, open the database so we can replay any outstanding Raft log entries.
+	verifhook.Hit("store.recover.after-restore")
 	drv := sql.DefaultDriver()
 	if len(extensions) > 0 {
 		drv = sql.NewDriver(random.StringPattern("rqlite-extended-recover-xxxx-xxxx-xxxx"),
@@ -245,6 +247,7 @@ func RecoverNode(dataDir string, extensions []string, logger *log.Logger, logs r
 		logger.Printf("replayed logs from %d to %d", snapshotIndex+1, lastLogIndex)
 		logger.Printf("last index is now %d, last term is %d", lastIndex, lastTerm)
 	}
+	verifhook.Hit("store.recover.after-replay")
 
 	// Create a new snapshot, placing the configuration in as if it was
 	// committed at index 1.
@@ -273,6 +276,7 @@ func RecoverNode(dataDir string, extensions []string, logger *log.Logger, logs r
 		return fmt.Errorf("failed to finalize snapshot: %v", err)
 	}
 	logger.Printf("recovery snapshot %s created successfully using %s", sink.ID(), tmpDBPath)
+	verifhook.Hit("store.recover.after-snapshot")
 
 	// Compact the log so that we don't get bad interference from any
 	// configuration change log entries that might be there.
@@ -283,6 +287,7 @@ func RecoverNode(dataDir string, extensions []string, logger *log.Logger, logs r
 	if err := logs.DeleteRange(firstLogIndex, lastLogIndex); err != nil {
 		return fmt.Errorf("log compaction failed: %v", err)
 	}
+	verifhook.Hit("store.recover.after-log-delete")
 	return nil
 }
 
